@@ -462,6 +462,7 @@ def emit_body(g, body, c, r, fn, mode, missing, info):
                 put_lines(a['lines'])
 
     i = 0
+    pending_sep = False
     while i < len(lines):
         line = lines[i]
         m = MARK.search(line)
@@ -490,6 +491,14 @@ def emit_body(g, body, c, r, fn, mode, missing, info):
             m = MARK.search(line)
         if not m:
             out.append((line, code))
+            # Verus' parser takes a block that directly follows a loop WITH a contract for the loop body ("block looks like the loop
+            # body but is followed by another block"): separate them with an empty proof block
+            if pending_sep and line.strip() == '}':
+                nxt = next((l.strip() for l in lines[i + 1:] if l.strip()), '')
+                if nxt.startswith('{'):
+                    out.append(('proof { }', code))
+            if line.strip():
+                pending_sep = False
             i += 1
             continue
         kind, arg = m.group(1), m.group(2)
@@ -520,6 +529,7 @@ def emit_body(g, body, c, r, fn, mode, missing, info):
                 out.append(('proof { assert(false); } // VXPROBE loop %d' % k, ('probe', c.path, 'loop %d' % k)))
         elif kind == 'loopend':
             ats('loop-end', int(arg))
+            pending_sep = bool(c.loops.get(int(arg)))
         elif kind == 'at':
             n = int(arg)
             a = ats_by_id[n]
